@@ -19,7 +19,7 @@ CLAIMED = {
          "Gate relies on the janitor consulting EvictionNeeded once per cycle when no limit is breached (true for the code under test; a watchdog turns a missing call-out into inconclusive). TTL class margins >=1s vs. a 1h boundary.",
          "2/C11"),
  "C12": ("runtime monitor on the real janitor goroutine gated at EvictionNeeded / Stats.Add(cache_evict); amount, metric and rank-order oracle",
-         "Exploration: seeded (limit, size, fraction, strategy, trigger incl. sys-memory limits, access history, long-expired entries purged by the same cycle, content arriving by Write / Dump+Restore / ExpireAll) cases; exactly one eviction cycle is let through and judged for trigger, amount (within one entry), cache_evict metric and strategy order (max rank removed <= min rank kept, ties free); plus a convergence family (free-running janitor, late writes over the limit, bounded progress). LFU cases with 4200-16200 serves per entry.",
+         "Exploration: seeded (limit, size, fraction, strategy, trigger incl. sys-memory limits, access history, long-expired entries purged by the same cycle, content arriving by Write / Dump+Restore / ExpireAll) cases; exactly one eviction cycle is let through and judged for trigger, amount (within one entry), cache_evict metric and strategy order (max rank removed <= min rank kept, ties free); plus a convergence family (free-running janitor, late writes over the limit, bounded progress). LFU cases with 4200-16200 serves per entry. Colliding key pairs on SyncMap; ExpireAll between access history and eviction (LRU/LFU ranks must survive).",
          "Harness-side rank bookkeeping (expiry from a pre-eviction Walk, last-read order with a strictly advancing clock, read counts) is the trusted oracle; only fresh entries are read so 'served' is unambiguous.",
          "2/C12"),
  "C13": ("differential runtime monitor: Walk/Read of restored caches vs. source across all backend pairings and relay chains",
@@ -39,7 +39,7 @@ CLAIMED = {
          "Interleavings inside library critical sections are not explored (atomic by construction); the steered executor uses runtime.Stack statuses and only ever yields 'inconclusive' on malfunction.",
          "2/C01"),
  "C02": ("offline provenance checker over recorded event logs with unique tokens; backend fault injection at every call index in turn",
-         "Exploration with embedded fault enumeration: every value/error returned by Get must be a token/error of the same key that was pre-populated, built (and finished before the return) or injected by the backend; one third of the cases are re-run with a backend failure at every call index; a backend mode reports expiry as the bare ErrExpired sentinel.",
+         "Exploration with embedded fault enumeration: every value/error returned by Get must be a token/error of the same key that was pre-populated, built (and finished before the return) or injected by the backend; one third of the cases are re-run with a backend failure at every call index; a backend mode reports expiry as the bare ErrExpired sentinel. Further: a typed backend passing through a foreign (non-generic, wrongly typed) expired-item error, builder errors wrapping cache.ErrNotFound, and a foreign ExpireAll of the backend at a chosen logger call-out.",
          "Token uniqueness per run; harness builders never produce zero values.",
          "2/C02"),
  "C03": ("complete enumeration of the finite decision table against the real code, judged by documented outcome classes plus differential agreement across APIs/backends",
@@ -55,11 +55,11 @@ CLAIMED = {
          "Suppression is only judged for events whose monotonic timestamps are within 0.9*FailedUpdateTTL of the failure; SkipRead is documented to bypass cache reads including the failure cache.",
          "2/C05"),
  "C06": ("context observation inside harness builders/backend wrapper vs. reference TTL fold; detached-context assertions for background builds; stored expiry vs. C10 interval",
-         "Exploration: seeded caller TTL cells and builder WithTTL update lists over all Get paths (cold, sync update, background update, waiter), cancelled/pre-cancelled/deadlined callers, SkipRead on fresh entries, ObserveMutability with builders returning the already cached value; per-Get accounting of the refresh store and the final store.",
+         "Exploration: seeded caller TTL cells and builder WithTTL update lists over all Get paths (cold, sync update, background update, waiter), cancelled/pre-cancelled/deadlined callers, SkipRead on fresh entries, ObserveMutability with builders returning the already cached value; per-Get accounting of the refresh store and the final store. Further: pointer-valued mode (a builder returning the cached value returns the identical pointer) and a TTL-scopes family (outer/inner/sibling WithTTL scopes with equal, zero and different durations).",
          "Without a caller TTL cell no propagation is promised: backend default or builder minimum accepted.",
          "2/C06"),
  "C16": ("Go race detector (+checkptr) over generated concurrent client programs; report blocks counted from GORACE logs; runtime fatal errors detected by child death",
-         "Exploration / non-detection: every unordered pair (incl. self-pairs) of the public-operation catalogue on shared backends (3 kinds x 3 strategies, janitor at 1ms, items reporter) and Failover/FailoverOf (also over a fault-injecting user backend)/Invalidator/HTTP export/a failing user Deleter, plus seeded k-subsets, each op looped by two goroutines under -race with halt_on_error=0; any report with a library frame or a runtime concurrent-map fault is a violation.",
+         "Exploration / non-detection: every unordered pair (incl. self-pairs) of the public-operation catalogue on shared backends (3 kinds x 3 strategies, janitor at 1ms, items reporter) and Failover/FailoverOf (also over a fault-injecting user backend)/Invalidator/HTTP export/a failing user Deleter, plus seeded k-subsets, each op looped by two goroutines under -race with halt_on_error=0; any report with a library frame or a runtime concurrent-map fault is a violation. Write ops also rewrite one shared pointer value.",
          "The race detector only sees executed accesses; claim is 'no report in the programs x repetitions executed'. A report without a library frame fails the check as broken.",
          "2/C16"),
  "C08": ("porcupine linearizability checking of recorded client-boundary histories against a per-key nondeterministic register model, plus a walk monitor",
